@@ -2,6 +2,7 @@
 import json, os
 from lib import vf, cbuild
 from gen import gsm_consts
+from props import c19_sch_part as sch      # part "sch": the Synchronisation-Burst decoders (l1s_decode_sb, decode_sb)
 
 ID = "C19"
 LEVEL = "proof"
@@ -20,6 +21,11 @@ MANIFEST = {
     "technique": "Lean 4 proof (CRT by kernel-evaluated residues + omega) over a C-width model; differential correspondence with the compiled C and Python",
     "design_ref": "DESIGN.md section 5 C19",
 }
+LEAN_MODULES += sch.LEAN_MODULES
+DRIVER_MODULES += sch.DRIVER_MODULES
+LEAN_MODEL_MODULES += sch.LEAN_MODEL_MODULES
+ASSUMPTIONS += sch.ASSUMPTIONS
+MANIFEST = dict(MANIFEST, text=MANIFEST["text"] + sch.MANIFEST_TEXT, note=MANIFEST["note"] + sch.MANIFEST_NOTE)
 H = 26 * 51 * 2048
 DELTAS = [1] + list(range(2, 61)) + [1325, 1326, 2715647]
 
@@ -131,6 +137,7 @@ def correspond(run, corr):
                  "a case is a distinct request line; all are non-trivial (each exercises the code under test); thorough adds every FN of the hyperframe")
     corr.samples = [{"request": r, "impl": a, "model": b} for r, a, b in list(zip(reqs, impl, model))[:4]] + \
                    [{"request": r, "impl": a, "model": b} for r, a, b in list(zip(preqs, pimpl, pmodel))[:2]]
+    sch.correspond(run, corr)
 
 
 def oracle_case(run, exe_lines, fn, d):
@@ -164,7 +171,7 @@ def search(run, corr, deep):
             found += run.report_witness({"kind": "py-time", "fn": fn, "impl": a, "spec": want})
             break
     corr.distribution["oracle: python fn2gsm_time FNs"] = len(preqs)
-    return found
+    return found + sch.search(run, corr, deep)
 
 
 def replay(run, path):
@@ -176,7 +183,9 @@ def replay(run, path):
         if not w:
             print("replay: no concrete input recorded (%s)" % json.dumps(v.get("broken"))[:400])
             continue
-        if w["kind"] == "c-time":
+        if w.get("part") == "sch":
+            bad += sch.replay_witness(run, w)
+        elif w["kind"] == "c-time":
             fn, d = w["fn"], w["delta"]
             out = vf.run_lines([exe], ["gt.fn2time %d" % fn, "gt.inc %d %d %d %d %d %d" % ((fn,) + spec(fn) + (d,))])
             want = ["%d %d %d %d %d" % ((fn,) + spec(fn)), "%d %d %d %d %d" % (((fn + d) % H,) + spec((fn + d) % H))]
